@@ -46,6 +46,10 @@ CLAIMS = {
    text="Static decision of the truthful-return clause of vineyard swaps as a typestate/counting rule over every path of the case analysis, for RU_vine_swap and Chain_vine_swap (vine_swap, vine_swap_with_z_eq_1_case and the four sign handlers each): the two cells are exchanged exactly once; the returned value says 'bars exchanged' iff exactly one bar transposition ran and 'bars kept' iff none ran; the transposition or handler applied is the one of the sign case established by the guards on the path (guards evaluated on the four sign valuations); each RU transposition rewrites birth/death/indexToBar_ of the two positions according to its sign case. Equivalence with a freshly built matrix, and Chain_matrix::remove_last after swaps, are not decided.",
    note="Trusted: clang 14 parser; template patterns with contradictory if-constexpr arms pruned; the *_transpose functions are the only code exchanging bars.",
    tech="typestate / counting path rule (E2n) and guard evaluation over the clang AST", ref="DESIGN.md 4/C06"),
+ "C07": dict(
+   text="Static decision of one bookkeeping clause of zigzag persistence: on every path of the forward arrow, the surjective reflection diamond and the backward arrow, every creation of a key in births_ is paired with exactly one registration of the same birth in the birth ordering, every erasure with exactly one remove_birth, and every streamed finite interval with the removal of exactly the birth it reports; the diamond orders the available births through the ordering. A birth that is unregistered or stale mis-pairs later diamonds. The interval decomposition itself, and the filtered front-ends' value translation, are not decided.",
+   note="Trusted: clang 14 parser; births_[k] = v creates a key while births_.at(k) = v updates one.",
+   tech="counting / pairing path rule (E2n) over the clang AST", ref="DESIGN.md 4/C07"),
 }
 
 NA = {
